@@ -355,12 +355,24 @@ func zzC11Stateless() {
 	zzC11 = env
 	srv := &Server{}
 	srv.opts.GetSessionID = func() string { env.minted++; return "NEW" }
-	h := NewStreamableHTTPHandler(func(*http.Request) *Server { return srv }, &StreamableHTTPOptions{Stateless: true, DisableLocalhostProtection: true})
+	// every way a stateless endpoint can be configured: with or without an event store, JSON or SSE answers, a
+	// session timeout (meaningless here), whatever protocol version the request names
+	sopts := &StreamableHTTPOptions{Stateless: true, DisableLocalhostProtection: true, JSONResponse: vBool("jsonResponse")}
+	if vBool("eventStore") {
+		sopts.EventStore = NewMemoryEventStore(nil)
+	}
+	if vBool("sessionTimeout") {
+		sopts.SessionTimeout = time.Duration(vIntRange("timeout", 1, 1<<40))
+	}
+	h := NewStreamableHTTPHandler(func(*http.Request) *Server { return srv }, sopts)
 	methods := []string{http.MethodGet, http.MethodPost, http.MethodDelete, http.MethodPut}
 	method := methods[vChoice("method", 4)]
 	req := &http.Request{Method: method, Header: http.Header{}}
 	req.Header.Set("Accept", "application/json, text/event-stream")
 	req.Header.Set("Content-Type", "application/json")
+	if pv := []string{"", protocolVersion20250326, protocolVersion20251125, protocolVersion20260728}[vChoice("versionHeader", 4)]; pv != "" {
+		req.Header.Set(protocolVersionHeader, pv)
+	}
 	if vBool("sendsSessionID") {
 		req.Header.Set(sessionIDHeader, "A")
 	}
@@ -374,7 +386,7 @@ func zzC11Stateless() {
 		vAssert(env.minted == 0 && w.hdr.Get(sessionIDHeader) == "", "C11.stateless-no-session-id")
 		vReach("post")
 	}
-	vAssert(len(h.sessions) == 0, "C11.stateless-keeps-no-sessions")
+	vAssert(len(h.sessions) == 0 && len(env.timers) == 0, "C11.stateless-keeps-no-sessions")
 	vReach("end")
 }
 
